@@ -20,6 +20,7 @@ import ClairModel.Proofs.Apk
 import ClairModel.Proofs.OsRelease
 import ClairModel.Proofs.PyMeta
 import ClairModel.Proofs.RpmPkg
+import ClairModel.Proofs.GoBin
 
 -- every variable of a property statement is bound explicitly: a misspelt name is an error, not a new variable
 set_option autoImplicit false
@@ -565,5 +566,103 @@ example : RpmPkg.scan [
   decide
 
 end rpm
+
+/-! ## gobin (build information of Go executables) -/
+
+section gobin
+open ClairModel.GoBin ClairModel.Version
+
+/-- The detector reports exactly the modules the build information lists, in
+    order: the toolchain as `stdlib`, the main module, then every dependency
+    (a replaced one as its replacement) — `2 + |deps|` packages, none missing,
+    none invented, names and versions as stated. For every build information. -/
+theorem gobin_reports_exactly_the_listed_modules (bi : BuildInfo) :
+    (toPackages bi).map (fun p => (p.name, p.version)) =
+      ("stdlib".toList, toolchainVersion bi.goVersion) :: (mainName bi, mainVersionText bi) ::
+        bi.deps.map Mod.effective ∧
+    (toPackages bi).length = 2 + bi.deps.length :=
+  ⟨toPackages_shape bi, toPackages_length bi⟩
+
+/-- Nothing is invented: every reported package is the toolchain, the main
+    module, or one dependency's (replacement's) path and version. -/
+theorem gobin_nothing_invented (bi : BuildInfo) (p : GoBin.Pkg) (hp : p ∈ toPackages bi) :
+    p.name = "stdlib".toList ∨ p.name = mainName bi ∨
+      ∃ d ∈ bi.deps, p.name = d.effective.1 ∧ p.version = d.effective.2 := by
+  simp only [toPackages, List.mem_cons, List.mem_map] at hp
+  rcases hp with rfl | rfl | ⟨d, hd, rfl⟩
+  · exact Or.inl rfl
+  · exact Or.inr (Or.inl rfl)
+  · exact Or.inr (Or.inr ⟨d, hd, rfl, rfl⟩)
+
+/-- The toolchain version is the text after `go`, up to an experiment suffix
+    (`go1.21.5 X:boringcrypto`). -/
+theorem gobin_toolchain_version (v suffix : Str) (hv : ∀ c ∈ v, c ≠ ' ') :
+    toolchainVersion ('g' :: 'o' :: v) = v ∧
+    toolchainVersion ('g' :: 'o' :: (v ++ ' ' :: suffix)) = v := by
+  simp only [toolchainVersion, trimGo, beforeSpace]
+  exact ⟨takeWhile_nospace v hv, takeWhile_append_space v suffix hv⟩
+
+/-- A main module with a semantic version is reported with exactly that text,
+    whatever the build settings say. -/
+theorem gobin_tagged_main_version (bi : BuildInfo) (h : Semver.gobinParse bi.mainVersion ≠ none) :
+    mainVersionText bi = bi.mainVersion := by
+  unfold mainVersionText
+  cases hp : Semver.gobinParse bi.mainVersion with
+  | none => exact absurd hp h
+  | some _ => rfl
+
+/-- A main module built from a work tree (`(devel)`, or no version at all):
+    `(devel)` alone without version-control stamps, otherwise the stamps in the
+    order of the settings. -/
+theorem gobin_devel_main_version (bi : BuildInfo) (h : bi.mainVersion = develText ∨ bi.mainVersion = []) :
+    mainVersionText bi =
+      if bi.settings.filterMap vcsPart = [] then develText
+      else "(devel) (".toList ++ GoBin.joinWith ", ".toList (bi.settings.filterMap vcsPart) ++ [')'] := by
+  unfold mainVersionText
+  rcases h with h | h
+  · rw [h, gobinParse_devel]
+    by_cases hv : bi.settings.filterMap vcsPart = []
+    · simp [hv, develText]
+    · simp [hv]
+  · rw [h, gobinParse_empty]
+    by_cases hv : bi.settings.filterMap vcsPart = []
+    · simp [hv]
+    · simp [hv]
+
+/-- The stamps `go build` writes (vcs, a 40-digit revision, the commit time,
+    modified or not), between any other settings. -/
+theorem gobin_vcs_stamps (vcs rev time : Str) (dirty : Bool) (hrev : rev.length = 40) :
+    [("-compiler".toList, "gc".toList), ("vcs".toList, vcs), ("vcs.revision".toList, rev),
+     ("GOOS".toList, "linux".toList), ("vcs.time".toList, time),
+     ("vcs.modified".toList, if dirty then "true".toList else "false".toList)].filterMap vcsPart =
+      [vcs, "commit ".toList ++ rev, "built at ".toList ++ time] ++ (if dirty then ["dirty".toList] else []) := by
+  cases dirty <;> simp [List.filterMap, vcsPart, hrev] <;> decide
+
+/-- A dependency is reported as the module compiled in: its replacement's path
+    and version when the build replaced it. -/
+theorem gobin_replaced_module (path version rpath rversion : Str) :
+    (depPkg ⟨path, version, some (rpath, rversion)⟩).name = rpath ∧
+    (depPkg ⟨path, version, some (rpath, rversion)⟩).version = rversion ∧
+    (depPkg ⟨path, version, none⟩).name = path ∧ (depPkg ⟨path, version, none⟩).version = version :=
+  ⟨rfl, rfl, rfl, rfl⟩
+
+/-- A module version written `vA.B.C` (or `A.B.C`), every number of at most
+    nine digits, is normalised to kind `semver` with exactly these numbers. -/
+theorem gobin_normalized_version (v : Bool) (path a b c : Str) (ha : Digits a) (hb : Digits b) (hc : Digits c)
+    (na : a ≠ []) (nb : b ≠ []) (nc : c ≠ []) (la : a.length ≤ 9) (lb : b.length ≤ 9) (lc : c.length ≤ 9) :
+    (depPkg ⟨path, (if v then ['v'] else []) ++ a ++ '.' :: (b ++ '.' :: c), none⟩).norm =
+      some { kind := "semver".toList,
+             v := [0, (natOfDigits a : Int), (natOfDigits b : Int), (natOfDigits c : Int), 0, 0, 0, 0, 0, 0] } :=
+  gobinParse_core v a b c ha hb hc na nb nc la lb lc
+
+/-- Sanity: a binary built from a tagged module with one replaced dependency. -/
+example : (toPackages ⟨"go1.21.5 X:boringcrypto".toList, "example.com/app".toList, "v1.2.3".toList,
+      [⟨"golang.org/x/sys".toList, "v0.15.0".toList, none⟩,
+       ⟨"example.com/lib".toList, "v1.0.0".toList, some ("github.com/fork/lib".toList, "v1.0.1".toList)⟩], []⟩).map
+      (fun p => (String.ofList p.name, String.ofList p.version)) =
+    [("stdlib", "1.21.5"), ("example.com/app", "v1.2.3"), ("golang.org/x/sys", "v0.15.0"), ("github.com/fork/lib", "v1.0.1")] := by
+  decide
+
+end gobin
 
 end ClairModel.Props.C02
